@@ -107,8 +107,12 @@ def constraint_traces(ctx, tf, tfl, rng, n_cfg):
       cons = c06.cat_constraint(c) if c["kind"] == "cat" else c06.lin_constraint(c)
     except ValueError:
       continue
+    # besides random columns: a dead column (all zeros), columns of one sign (clipped to zero / untouched by the sign
+    # constraints) and one of the smallest representable entries - the per-column reductions (norms, numerically-zero guards) are what could couple units
     subject("%sConstraintPerUnit" % c["kind"].capitalize(), {"layer": c["kind"]},
-            lambda n=n: [rng.integers(-128, 129, size=n) / 64.0 for _ in range(4)],
+            lambda n=n: [rng.integers(-128, 129, size=n) / 64.0, rng.integers(-128, 129, size=n) / 64.0, np.zeros(n),
+                         -np.abs(rng.integers(1, 129, size=n)) / 64.0, np.abs(rng.integers(1, 129, size=n)) / 64.0,
+                         rng.integers(-1, 2, size=n) / 64.0],
             lambda K, cons=cons: cons(tf.constant(K, dtype=tf.float32)).numpy())
   # KFL: kernel and scale constraints of a layer with several units vs one-unit layers
   for j in range(n_cfg):
